@@ -437,7 +437,11 @@ def run_cli_session(d):
         if intr.get('k') is None and exc1 is None:
             if [x for x in log2 if x[1] != 'ASKED-AGAIN']:
                 out['findings'].append('rerun-asks')
-            if sol1 != sol2:
+            def as_dict(txt):
+                cpx = configparser.ConfigParser(interpolation=None)
+                cpx.read_string(txt or '')
+                return {sec: dict(cpx[sec]) for sec in cpx.sections()}
+            if as_dict(sol1) != as_dict(sol2):
                 out['findings'].append('rerun-differs')
     import shutil
     shutil.rmtree(tmp, ignore_errors=True)
